@@ -80,9 +80,10 @@ CLAIMS = {
         'text': 'C09_parse_total: for EVERY byte string (a superset of valid UTF-8) none of the six parsers of the model panics - every byte-offset slice is taken only after a recogniser '
                 'has pinned the bytes before it to ASCII; C09_use_total: every token that parses satisfies the order conditions its expansion relies on (TokenOk), so expansion and printing '
                 'cannot panic; C09_range_views_total: rank_pairs / orphan_card_pairs / Display never panic for any range; C09_range_total: a parsed range can be evaluated on any flop beside '
-                'any other proper ranges without panic (via C08_total).',
+                'any other proper ranges without panic (via C08_total); C09_regex_semantics: each of the seven pattern literals read from the source on this run lies in the modelled regex subset and the '
+                'model\'s recogniser for that branch accepts exactly the byte strings the pattern matches (derivative semantics, Model/Regex.lean; literal vs. intended pattern decided by a proved-sound equivalence checker in the kernel).',
         'note': 'Lean kernel + standard axioms; hand-written model of the parsers with Rust\'s char-boundary slicing semantics (Model/Basic.lean) tied by the correspondence (all strings of length <= 3 over a '
-                '24-symbol alphabet incl. multi-byte characters, all seven shapes with arbitrary ranks, multi-byte splices, over-long input); regex crate modelled by recognisers (pattern literals read from the source).',
+                '24-symbol alphabet incl. multi-byte characters, all seven shapes with arbitrary ranks, multi-byte splices, over-long input); regex crate modelled (not verified) by a derivative semantics of the subset used.',
         'design_ref': 'DESIGN.md §6 C09',
     },
     'C10': {
@@ -106,7 +107,7 @@ CLAIMS = {
                 'parses and expands to exactly the list of combos Spec.denote gives (standard notation, written independently of the crate), each once, each with the token\'s weight (1 when omitted); '
                 'C05_list: for any list of such tokens joined by commas with spaces anywhere, lookup of every combo is the weight of the LAST token denoting it; C05_empty: the empty / all-space string is the empty range.',
         'note': 'Lean kernel + standard axioms; assumption: "" is not a number for f32::from_str (named hypothesis); hand-written model of the parser tied by the correspondence (all 3,809 well-formed shapes x weight literals, '
-                'expansion order compared with the model, expansion set with Spec.denote); regex crate modelled by recognisers whose pattern literals are compared with the source on every run (C09_regex_literals).',
+                'expansion order compared with the model, expansion set with Spec.denote); regex crate modelled by a derivative semantics of the pattern subset used; the recognisers of the parser model are proved equal to that semantics of the literals read from the source on every run (C09_regex_semantics).',
         'design_ref': 'DESIGN.md §6 C05',
     },
     'C06': {
